@@ -99,7 +99,14 @@ func c09Trace(plan *Plan, bubble bool, midCall func(), st *Stats) (string, *Viol
 					break
 				}
 			}
-			fmt.Fprintf(&sb, "  store %s\n", fmtStrMap(d.h.StoreCanon()))
+			store := fmtStrMap(d.h.StoreCanon())
+			fmt.Fprintf(&sb, "  store %s\n", store)
+			if len(store) > 1<<16 {
+				// a script that doubles a string every round: what it does next is the same in every
+				// execution, but nothing is learnt from gigabytes of it
+				sb.WriteString("  cut: the variables have outgrown 64 KB\n")
+				break
+			}
 		}
 		d.h.Close()
 		drain(bubble)
@@ -234,10 +241,22 @@ func c09Exec(plan *Plan, st *Stats) *Violation {
 	if err == nil {
 		k := 0
 		t, _ = c09Trace(plan, false, func() {
+			if k > 0 && k%len(neighbour.Ops) == 0 {
+				// the neighbour has run its schedule: a fresh one takes over. (One neighbour stepped
+				// without bound doubles a string of a looping script until the process is out of memory.)
+				nd.h.Close()
+				if nd2, err := newDyn(&neighbour.World, false); err == nil {
+					nd = nd2
+				}
+			}
 			op := neighbour.Ops[k%len(neighbour.Ops)]
 			k++
 			nd.apply(&op)
+			if len(fmtStrMap(nd.h.StoreCanon())) > 1<<16 {
+				k += len(neighbour.Ops) - k%len(neighbour.Ops) // replaced at the next callback
+			}
 		}, nil)
+		nd.h.Close()
 		if v := cmp("C09.mid-call", "with another seeded runner stepped during its callbacks", t); v != nil {
 			return v
 		}
